@@ -67,8 +67,8 @@ def gen_cases(tier, seed):
                  ('all', 'all')]
         for (g, a), mix, step, wa in itertools.product(pairs, mixes, STEPS, (True, False)):
             k = pairs.index((g, a)) + mixes.index(mix) + STEPS.index(step)
-            cases.append(dict(traj=(k + seed) % 3, gyro=g, accel=a, mix=''.join(mix), step=step, wa=wa,
-                              sigma=SIGMA_SCALES[(k + seed) % 4]))
+            cases.append(dict(traj=(k + seed) % 4, gyro=g, accel=a, mix=''.join(mix), step=step, wa=wa,
+                              sigma=SIGMA_SCALES[(k + seed) % 4], lever=bool((k + seed) % 2)))
         # time_step below the trajectory sampling interval (a few model pairs, two mixes)
         for (g, a), mix, wa in itertools.product(pairs[:4], (('P',), ('P', 'V', 'B')), (True, False)):
             cases.append(dict(traj=seed % 3, gyro=g, accel=a, mix=''.join(mix), step=STEP_BELOW_SAMPLING, wa=wa, sigma=1.0))
@@ -80,8 +80,8 @@ def gen_cases(tier, seed):
         for g, a, mix, step, wa in itertools.product(MODEL_CLASSES, MODEL_CLASSES, mixes, STEPS, (True, False)):
             k = MODEL_CLASSES.index(g) * 8 + MODEL_CLASSES.index(a) + mixes.index(mix) + STEPS.index(step)
             for sg in (SIGMA_SCALES[k % 4], SIGMA_SCALES[(k + 2) % 4]):
-                cases.append(dict(traj=(k + seed) % 3, gyro=g, accel=a, mix=''.join(mix), step=step, wa=wa,
-                                  sigma=sg))
+                cases.append(dict(traj=(k + seed) % 4, gyro=g, accel=a, mix=''.join(mix), step=step, wa=wa,
+                                  sigma=sg, lever=bool(k % 2)))
     return cases
 
 
@@ -98,7 +98,10 @@ def data(traj_id, wa):
     vz = (0.5, 1.0) if wa else (0.0, 0.0)
     spec = [dict(lla=[50.0, 60.0, 100.0], vm=[10.0, -5.0, vz[0]], va=[3.0, 3.0, vz[1]], period=7.0),
             dict(lla=[-33.0, 151.0, 5000.0], vm=[150.0, 100.0, vz[0]], va=[20.0, 10.0, vz[1]], period=5.0),
-            dict(lla=[75.0, -170.0, 0.0], vm=[-30.0, 40.0, 0.0], va=[5.0, 8.0, vz[1]], period=9.0)][traj_id]
+            dict(lla=[75.0, -170.0, 0.0], vm=[-30.0, 40.0, 0.0], va=[5.0, 8.0, vz[1]], period=9.0),
+            # southbound weave: heading crosses +-180 deg inside covariance steps (plain averaging of Euler angles
+            # anywhere in the filter would show here)
+            dict(lla=[-20.0, 179.99, 50.0], vm=[-20.0, 0.5, vz[0]], va=[3.0, 6.0, vz[1]], period=4.0)][traj_id]
     traj_true, imu_true = sim.generate_sine_velocity_motion(dt, 8.0, spec['lla'], spec['vm'], spec['va'],
                                                             velocity_change_period=spec['period'])
     rng = np.random.RandomState(7 + traj_id)
@@ -116,7 +119,7 @@ def data(traj_id, wa):
     return _DATA[key]
 
 
-def make_measurements(mix, traj_true, noise):
+def make_measurements(mix, traj_true, noise, lever=False):
     from pyins import measurements, sim, transform
     out = []
     t = np.asarray(traj_true.index, dtype=float)
@@ -125,7 +128,14 @@ def make_measurements(mix, traj_true, noise):
         df = traj_true.iloc[rows][['lat', 'lon', 'alt']].copy()
         df[['lat', 'lon', 'alt']] = transform.perturb_lla(df.values, 1.0 * noise[:len(rows)])
         df.index = df.index + np.array([0.0, 0.0, 0.0, 0.0, 0.02, 0.0])      # one off-grid stamp
-        out.append(measurements.Position(df, 1.0))
+        if lever:
+            # antenna 2 m ahead, 1 m to the left, 0.5 m below the IMU: the measured positions are the antenna's
+            arm = np.array([2.0, -1.0, 0.5])
+            ant = transform.translate_trajectory(traj_true.iloc[rows], arm)
+            df[['lat', 'lon', 'alt']] = transform.perturb_lla(ant[['lat', 'lon', 'alt']].values, 1.0 * noise[:len(rows)])
+            out.append(measurements.Position(df, 1.0, imu_to_antenna_b=arm))
+        else:
+            out.append(measurements.Position(df, 1.0))
     if 'V' in mix:
         rows = [7, 50, 77]                   # 7 coincident with Position; 77 in the same interval as P's 77+0.02
         df = traj_true.iloc[rows][['VN', 'VE', 'VD']] + 0.1 * noise[10:10 + len(rows)]
@@ -145,9 +155,29 @@ def slerp_rph(a, b, alpha):
     return rot.rph_from_c(rot.slerp_c(c0, c1, alpha)) / D2R
 
 
+def nlerp_rph(a, b, alpha):
+    """Weighted chordal mean of two rotations = normalised linear blend of their (sign-aligned) quaternions."""
+    c0 = rot.c_nb(*(np.asarray(a, dtype=float) * D2R))
+    c1 = rot.c_nb(*(np.asarray(b, dtype=float) * D2R))
+    q0, q1 = rot.quat_from_c(c0), rot.quat_from_c(c1)
+    if q0 @ q1 < 0:
+        q1 = -q1
+    q = (1 - alpha) * q0 + alpha * q1
+    q = q / np.linalg.norm(q)
+    w, x, y, z = q
+    c = np.array([[1 - 2 * (y * y + z * z), 2 * (x * y - w * z), 2 * (x * z + w * y)],
+                  [2 * (x * y + w * z), 1 - 2 * (x * x + z * z), 2 * (y * z - w * x)],
+                  [2 * (x * z - w * y), 2 * (y * z + w * x), 1 - 2 * (x * x + y * y)]])
+    return rot.rph_from_c(c) / D2R
+
+
+INTERPOLANT = 'slerp'
+
+
 def interp_pva(p, q, alpha):
     s = (1 - alpha) * p + alpha * q
-    s[RPH] = slerp_rph(p[RPH].values, q[RPH].values, alpha)
+    f = slerp_rph if INTERPOLANT == 'slerp' else nlerp_rph
+    s[RPH] = f(p[RPH].values, q[RPH].values, alpha)
     return s
 
 
@@ -246,7 +276,7 @@ def run_case(case):
 
     wa = case['wa']
     traj_true, traj, inc, noise = data(case['traj'], wa)
-    meas = make_measurements(case['mix'], traj_true, noise)
+    meas = make_measurements(case['mix'], traj_true, noise, case.get('lever', False))
     sds = SDS * case['sigma']
     gmod, amod = make_model(case['gyro'], 'gyro'), make_model(case['accel'], 'accel')
     res = filters.run_feedforward_filter(traj_true, traj, *sds, gyro_model=gmod, accel_model=amod,
@@ -256,20 +286,33 @@ def run_case(case):
     if len(grid) < 2 or (np.diff(grid) <= 0).any():
         v('c11-grid', 'result grid is not strictly increasing (C10\'s rule): %s' % grid[:6])
         return dict(viol=viol, key=repr(sorted(case.items())), nontrivial=True, stats=stats)
+    global INTERPOLANT
+    INTERPOLANT = 'slerp'
     orc, err = oracle(case, res, traj_true, traj, inc, meas, sds)
+    # The attitude between two rows (needed at off-grid measurement epochs) can be interpolated along the geodesic
+    # (SLERP) or by the chordal mean; both are shortest-arc interpolants and differ at third order in the angle
+    # between the rows.  The optimal estimate inherits that ambiguity: it widens the tolerance.
+    INTERPOLANT = 'nlerp'
+    orc2, _ = oracle(case, res, traj_true, traj, inc, meas, sds)
+    INTERPOLANT = 'slerp'
+    amb = {}
+    if orc is not None and orc2 is not None:
+        for k_ in ('err_nav', 'sd_nav', 'gyro', 'accel', 'gyro_sd', 'accel_sd'):
+            amb[k_] = 3.0 * np.abs(orc[k_] - orc2[k_])
+        amb['inn'] = 3.0 * max([np.abs(a_ - b_).max() for a_, b_ in zip(orc['inn'], orc2['inn'])] + [0.0])
     if orc is None:
         v('c11-grid', err)
         return dict(viol=viol, key=repr(sorted(case.items())), nontrivial=True, stats=stats)
     TOL = 1e-5
 
-    def cmp(name, got, ref, scale):
+    def cmp(name, got, ref, scale, slack=0.0):
         got, ref = np.asarray(got, dtype=float), np.asarray(ref, dtype=float)
         if got.shape != ref.shape:
             v('c11-shape:' + name, '%s has shape %s, oracle %s' % (name, got.shape, ref.shape))
             return
         if not got.size:
             return
-        e = np.abs(got - ref) / (scale + 1e-300)
+        e = np.maximum(np.abs(got - ref) - slack, 0.0) / (scale + 1e-300)
         stats['max_tight_' + name] = max(stats.get('max_tight_' + name, 0.0), float(np.nanmax(e) / TOL))
         if np.nanmax(e) > TOL or not np.isfinite(got).all():
             i = np.unravel_index(np.nanargmax(e), e.shape)
@@ -291,8 +334,9 @@ def run_case(case):
     if not wa:
         sd_scale[0, [2, 5]] = 1.0
     # subtracting degrees of latitude/longitude loses ~1e-8 m: allow it in the scale
-    cmp('trajectory', est, orc['err_nav'], sd_scale + np.array([[1e-3, 1e-3, 1e-6, 1e-9, 1e-9, 1e-9, 1e-7, 1e-7, 1e-7]]))
-    cmp('trajectory_sd', res.trajectory_sd.values, orc['sd_nav'], sd_scale)
+    cmp('trajectory', est, orc['err_nav'], sd_scale + np.array([[1e-3, 1e-3, 1e-6, 1e-9, 1e-9, 1e-9, 1e-7, 1e-7, 1e-7]]),
+        amb['err_nav'])
+    cmp('trajectory_sd', res.trajectory_sd.values, orc['sd_nav'], sd_scale, amb['sd_nav'])
     if list(res.gyro.columns) != list(orc['gmod'].states) or list(res.accel.columns) != list(orc['amod'].states):
         v('c11-sensor-columns', 'sensor estimate columns %s / %s' % (list(res.gyro.columns), list(res.accel.columns)))
     else:
@@ -300,15 +344,15 @@ def run_case(case):
                                              ('accel', res.accel.values, orc['accel'], orc['accel_sd'], res.accel_sd.values)):
             if ref.shape[1]:
                 sc = np.maximum(sd_ref.max(axis=0, keepdims=True), 1e-300)
-                cmp(nm, got, ref, sc)
-                cmp(nm + '_sd', sd_got, sd_ref, sc)
+                cmp(nm, got, ref, sc, amb[nm])
+                cmp(nm + '_sd', sd_got, sd_ref, sc, amb[nm + '_sd'])
     by = {}
     for nmc, w in zip(orc['names'], orc['inn']):
         by.setdefault(nmc, []).append(w)
     for nmc, rows in by.items():
         got = res.innovations[nmc].values
         ref = np.array(rows)
-        cmp('innovations', got, ref, np.maximum(np.abs(ref).max(), 1.0))
+        cmp('innovations', got, ref, np.maximum(np.abs(ref).max(), 1.0), amb['inn'])
     stats['observations'] = orc['n_obs']
     stats['max_cond_Czz'] = float(orc['cond'])
     first = {}
